@@ -1356,11 +1356,17 @@ func (s *Set) SymmetricDifference(other Iterator) (Value, error) {
 	diff := s.clone()
 	var x Value
 	for other.Next(&x) {
-		found, err := diff.Delete(x)
+		// Decide by membership in s, not in diff, so that an element
+		// that other yields more than once is not toggled back.
+		found, err := s.Has(x)
 		if err != nil {
 			return nil, err
 		}
-		if !found {
+		if found {
+			if _, err := diff.Delete(x); err != nil {
+				return nil, err
+			}
+		} else {
 			diff.Insert(x) // can't fail
 		}
 	}
